@@ -5,3 +5,6 @@ pub fn fetch_or_u64(a: &mut u64, m: u64) -> (prev: u64)
 pub fn fetch_and_u64(a: &mut u64, m: u64) -> (prev: u64)
     ensures prev == *old(a), *final(a) == *old(a) & m
 { let p = *a; *a = p & m; p }
+// vec![0; n]
+#[verifier::external_body]
+pub fn vec_zeroed_u64(n: usize) -> (r: Vec<u64>) ensures r@.len() == n, forall|i: int| 0 <= i < n ==> r@[i] == 0 { unimplemented!() }
